@@ -87,13 +87,43 @@ func (e *SpecEnv) lookupPkg(name string) *types.Package {
 			return p.Pkg
 		}
 	}
+	// last resort: any loaded package of that name (a third-party dependency that the contract's package does not import,
+	// e.g. `badger.ErrKeyNotFound` mentioned in a contract of package common)
+	for _, p := range e.fc.eng.prog.AllPackages() {
+		if p.Pkg.Name() == name {
+			return p.Pkg
+		}
+	}
 	return nil
 }
 
 func (e *SpecEnv) resolveType(s string) types.Type {
 	switch {
+	case strings.HasPrefix(s, "map["):
+		// map[K]V (C05: spec functions over map-typed parameters)
+		d, j := 0, -1
+		for i := 3; i < len(s) && j < 0; i++ {
+			switch s[i] {
+			case '[':
+				d++
+			case ']':
+				d--
+				if d == 0 {
+					j = i
+				}
+			}
+		}
+		if j < 0 {
+			e.fail("bad map type %s", s)
+		}
+		return types.NewMap(e.resolveType(s[4:j]), e.resolveType(s[j+1:]))
 	case strings.HasPrefix(s, "*"):
 		return types.NewPointer(e.resolveType(s[1:]))
+	case strings.HasPrefix(s, "map["):
+		// map[K]V (K without nested brackets)
+		if i := strings.Index(s, "]"); i > 4 {
+			return types.NewMap(e.resolveType(s[4:i]), e.resolveType(s[i+1:]))
+		}
 	case strings.HasPrefix(s, "[]"):
 		return types.NewSlice(e.resolveType(s[2:]))
 	case strings.HasPrefix(s, "["):
@@ -275,7 +305,11 @@ func (e *SpecEnv) eval(x Expr) SV {
 				for _, t := range tr {
 					ts = append(ts, n.eval(t).t)
 				}
-				pat += " :pattern (" + strings.Join(ts, " ") + ")"
+				// SMT patterns must not contain ite (a load through a pointer of unknown shape is one): offer one
+				// alternative pattern per branch combination instead
+				for _, alt := range iteFreePatterns(strings.Join(ts, " ")) {
+					pat += " :pattern (" + alt + ")"
+				}
 			}
 		}
 		q, inner := "forall", implies(and(wfs...), body.t)
@@ -695,6 +729,11 @@ func (e *SpecEnv) evalCall(x *ECall) SV {
 					return SV{t: eq(app("itag", v.t), "0"), typ: boolT}
 				}
 				return SV{t: eq(v.t, nilPtr), typ: boolT}
+			case "iscell":
+				// iscell(p): p is not the address of an array/slice element (it is a variable, field or allocation of its own);
+				// loads through p then read the cell component only
+				v := e.eval(x.Args[0])
+				return SV{t: not("((_ is Elem) " + v.t + ")"), typ: boolT}
 			case "fresh":
 				// fresh(p): p was allocated by this call (root >= old watermark)
 				v := e.eval(x.Args[0])
@@ -710,6 +749,41 @@ func (e *SpecEnv) evalCall(x *ECall) SV {
 					old = e.cur
 				}
 				return SV{t: app(">=", app("root", p), fc.watermark(old)), typ: boolT}
+			case "allocated":
+				if len(x.Args) == 0 {
+					// allocated(): number of slice elements allocated by make() in verified code so far (ghost counter)
+					return SV{t: fc.comp(e.cur, "G|alloc", "Int"), typ: mathInt}
+				}
+				// allocated(p): p denotes an object that exists in the current state (root below the current watermark).
+				// Heap closure: true of every pointer stored in a reachable cell; needed to separate it from later allocations.
+				v := e.eval(x.Args[0])
+				p := v.t
+				if _, ok := types.Unalias(v.typ).Underlying().(*types.Slice); ok {
+					p = sarr(v.t)
+				}
+				return SV{t: app("<", app("root", p), fc.watermark(e.cur)), typ: boolT}
+			case "arr":
+				// arr(s): the backing array (block pointer) of slice s, e.g. arr(enc.buf) == old(arr(enc.buf)) || fresh(enc.buf)
+				v := e.eval(x.Args[0])
+				sl, ok := types.Unalias(v.typ).Underlying().(*types.Slice)
+				if !ok {
+					e.fail("arr of non-slice")
+				}
+				return SV{t: sarr(v.t), typ: types.NewPointer(sl.Elem())}
+			case "iface":
+				// iface(x): the interface value MakeInterface builds from x (same tag and box function as the code path);
+				// lets a spec name the arguments of a variadic ...any call (C05: fmt.Sprintf map keys)
+				v := e.eval(x.Args[0])
+				if v.typ == nil || isMathInt(v.typ) || isNilType(v.typ) {
+					e.fail("iface() needs a value of a Go type")
+				}
+				tag := num(int64(tc.tagOf(v.typ)))
+				payload := v.t
+				if tc.sortOf(v.typ) != "Ptr" {
+					box, _ := tc.boxFn(v.typ)
+					payload = app(box, v.t)
+				}
+				return SV{t: app("mk-iface", tag, payload), typ: types.NewInterfaceType(nil, nil)}
 			case "typeis":
 				// typeis(x, T): dynamic type of interface x is T
 				v := e.eval(x.Args[0])
@@ -747,6 +821,75 @@ func (e *SpecEnv) evalCall(x *ECall) SV {
 				}
 				fc.eng.declareUF(fc, "bigbytes", []string{"(Array Int Int)", "Int", "Int"}, "Int")
 				return SV{t: app("bigbytes", parts...), typ: mathInt}
+			case "ghostint", "ghostbytes":
+				// ghostint(name, p) / ghostbytes(name, p): ghost state attached to the object p points to (an integer / a byte
+				// sequence indexed from 0). Written only by `modifies ghost name` clauses of assumed contracts.
+				id, ok := x.Args[0].(*EIdent)
+				if !ok || len(x.Args) != 2 {
+					e.fail("%s(name, pointer)", id.Name)
+				}
+				pv := e.eval(x.Args[1])
+				if tc.sortOfSV(pv) != "Ptr" {
+					e.fail("ghost state needs a pointer key")
+				}
+				k := "G|" + id.Name
+				cur := fc.comp(e.cur, k, ghostSort(id.Name))
+				if ghostSort(id.Name) == "(Array Ptr Int)" {
+					return SV{t: app("select", cur, pv.t), typ: mathInt}
+				}
+				return SV{t: app("select", cur, pv.t), typ: types.NewArray(types.Typ[types.Uint8], 0)}
+			case "ghostvar":
+				// ghostvar(NAME): current value of an auxiliary integer variable declared with `ghost NAME = INIT`
+				id, ok := x.Args[0].(*EIdent)
+				if !ok {
+					e.fail("ghostvar(NAME)")
+				}
+				return SV{t: fc.comp(e.cur, "G|v|"+id.Name, "Int"), typ: mathInt}
+			case "ptrof":
+				// ptrof(x): the pointer held by an interface value
+				v := e.eval(x.Args[0])
+				if tc.sortOfSV(v) != "Iface" {
+					e.fail("ptrof of non-interface")
+				}
+				return SV{t: app("iptr", v.t), typ: types.NewPointer(types.NewStruct(nil, nil))}
+			case "seq":
+				// seq(s): abstract value ("code") of the byte string held by a slice window or a byte array: an uninterpreted
+				// function of (block, offset, length). The engine adds the ground equalities that copy/append establish.
+				v := e.eval(x.Args[0])
+				var parts []string
+				switch u := types.Unalias(v.typ).Underlying().(type) {
+				case *types.Slice:
+					k, s := fc.bKey(u.Elem())
+					parts = []string{app("select", fc.comp(e.cur, k, s), sarr(v.t)), soff(v.t), slen(v.t)}
+				case *types.Array:
+					parts = []string{v.t, "0", num(u.Len())}
+				default:
+					e.fail("seq of %s", v.typ)
+				}
+				fc.eng.declareUF(fc, "bseq", []string{"(Array Int Int)", "Int", "Int"}, "Int")
+				return SV{t: app("bseq", parts...), typ: mathInt}
+			case "cat":
+				// cat(a, b): code of the concatenation of two byte strings given by their codes (uninterpreted)
+				a, b := e.eval(x.Args[0]), e.eval(x.Args[1])
+				fc.eng.declareUF(fc, "bcat", []string{"Int", "Int"}, "Int")
+				return SV{t: app("bcat", a.t, b.t), typ: mathInt}
+			case "kvkey", "kvval":
+				// T-KV: kvkey(s) / kvval(s): abstract identity of the byte string held by s (slice or array), used as key /
+				// value of a key-value store. Uninterpreted function of (block, offset, length) exactly like bigbytes, i.e. any
+				// function of the content is a model. Ids are >= 1: 0 is reserved for "no entry".
+				v := e.eval(x.Args[0])
+				var parts []string
+				switch u := types.Unalias(v.typ).Underlying().(type) {
+				case *types.Slice:
+					k, s := fc.bKey(u.Elem())
+					parts = []string{app("select", fc.comp(e.cur, k, s), sarr(v.t)), soff(v.t), slen(v.t)}
+				case *types.Array:
+					parts = []string{v.t, "0", num(u.Len())}
+				default:
+					e.fail("%s of %s", id.Name, v.typ)
+				}
+				fc.eng.declareUF(fc, id.Name, []string{"(Array Int Int)", "Int", "Int"}, "Int") // positivity axiom: see preamble()
+				return SV{t: app(id.Name, parts...), typ: mathInt}
 			case "bytes":
 				// bytes(s): the (Array Int Int) block behind a byte slice, for use with seq builtins
 				v := e.eval(x.Args[0])
@@ -844,6 +987,14 @@ func (e *SpecEnv) evalCall(x *ECall) SV {
 	return SV{}
 }
 
+// ghostSort: ghost components named bytes_* hold a byte sequence per object, all others an integer per object.
+func ghostSort(name string) string {
+	if strings.HasPrefix(name, "bytes_") {
+		return "(Array Ptr (Array Int Int))"
+	}
+	return "(Array Ptr Int)"
+}
+
 func derefNamed(t types.Type) (*types.Named, bool) {
 	t = types.Unalias(t)
 	if p, ok := t.Underlying().(*types.Pointer); ok {
@@ -892,6 +1043,9 @@ func (e *SpecEnv) applySpecFn(sf *SpecFn, argExprs []Expr) SV {
 		}
 		n.vars[b.Name] = a
 	}
+	if sf.Rec {
+		return e.applyRec(sf, &n, args)
+	}
 	if sf.Uninterp {
 		ret := n.resolveType(sf.Ret)
 		var sorts, ts []string
@@ -901,6 +1055,25 @@ func (e *SpecEnv) applySpecFn(sf *SpecFn, argExprs []Expr) SV {
 		}
 		name := "sf_" + mangle(sf.Pkg+"_"+sf.Name)
 		e.fc.eng.declareUF(e.fc, name, sorts, e.fc.tc.sortOf(ret))
+		if _, isArr := isArrayT(ret); isArr && len(sorts) > 0 {
+			// an uninterpreted spec function with an array result (e.g. crypto.Hash) ranges over well-formed Go values:
+			// canonical arrays (zero outside the index range) with elements in range
+			if e.fc.ufAxioms == nil {
+				e.fc.ufAxioms = map[string]string{}
+			}
+			if _, done := e.fc.ufAxioms[name]; !done {
+				var decls, vs []string
+				for i, srt := range sorts {
+					v := fmt.Sprintf("ua%d", i)
+					decls = append(decls, "("+v+" "+srt+")")
+					vs = append(vs, v)
+				}
+				call := app(name, vs...)
+				if w := e.fc.tc.wf(call, ret, ""); w != "true" {
+					e.fc.ufAxioms[name] = fmt.Sprintf("(assert (forall (%s) (! %s :pattern (%s))))", strings.Join(decls, " "), w, call)
+				}
+			}
+		}
 		return SV{t: app(name, ts...), typ: ret}
 	}
 	r := n.eval(sf.Body)
@@ -911,6 +1084,12 @@ func (e *SpecEnv) applySpecFn(sf *SpecFn, argExprs []Expr) SV {
 }
 
 func (e *SpecEnv) lookupPkgPath(short string) *types.Package {
+	// the repository package wins over a standard-library package of the same short path (crypto vs mixin/crypto)
+	for _, p := range e.fc.eng.prog.AllPackages() {
+		if p.Pkg.Path() == modPrefix+short {
+			return p.Pkg
+		}
+	}
 	for _, p := range e.fc.eng.prog.AllPackages() {
 		if p.Pkg.Path() == modPrefix+short {
 			return p.Pkg
@@ -1024,4 +1203,207 @@ func paramNames(spec *FuncSpec, sig *types.Signature) []string {
 		}
 	}
 	return names
+}
+
+// iteFreePatterns replaces every (ite c a b) inside a pattern by a resp. b, giving up to 8 ite-free alternatives.
+func iteFreePatterns(p string) []string {
+	i := strings.Index(p, "(ite ")
+	if i < 0 {
+		return []string{p}
+	}
+	depth, j := 0, i
+	for ; j < len(p); j++ {
+		if p[j] == '(' {
+			depth++
+		} else if p[j] == ')' {
+			depth--
+			if depth == 0 {
+				break
+			}
+		}
+	}
+	if j >= len(p) {
+		return []string{p}
+	}
+	parts := splitTop(p[i : j+1])
+	if len(parts) != 4 {
+		return []string{p}
+	}
+	var out []string
+	for _, br := range parts[2:] {
+		out = append(out, iteFreePatterns(p[:i]+br+p[j+1:])...)
+		if len(out) > 8 {
+			break
+		}
+	}
+	return out
+}
+
+// recWellFounded checks the syntactic shape  n <= 0 ? base : step  with every self call of the form f(..., n - 1).
+func recWellFounded(sf *SpecFn) error {
+	if len(sf.Params) == 0 {
+		return fmt.Errorf("rec %s needs an integer last parameter", sf.Name)
+	}
+	n := sf.Params[len(sf.Params)-1].Name
+	ite, ok := sf.Body.(*EIte)
+	if !ok {
+		return fmt.Errorf("rec %s: body must be `%s <= 0 ? base : step`", sf.Name, n)
+	}
+	c, ok := ite.C.(*EBinary)
+	if !ok || c.Op != "<=" {
+		return fmt.Errorf("rec %s: guard must be `%s <= 0`", sf.Name, n)
+	}
+	if id, ok := c.X.(*EIdent); !ok || id.Name != n {
+		return fmt.Errorf("rec %s: guard must be `%s <= 0`", sf.Name, n)
+	}
+	if z, ok := c.Y.(*ENum); !ok || z.Val != "0" {
+		return fmt.Errorf("rec %s: guard must be `%s <= 0`", sf.Name, n)
+	}
+	var bad error
+	var walk func(x Expr, inStep bool)
+	walk = func(x Expr, inStep bool) {
+		switch v := x.(type) {
+		case *ECall:
+			if id, ok := v.Fn.(*EIdent); ok && id.Name == sf.Name {
+				if !inStep {
+					bad = fmt.Errorf("rec %s: self call outside the step branch", sf.Name)
+				} else if len(v.Args) != len(sf.Params) {
+					bad = fmt.Errorf("rec %s: arity of self call", sf.Name)
+				} else {
+					last, ok := v.Args[len(v.Args)-1].(*EBinary)
+					lid, ok2 := Expr(nil), false
+					if ok {
+						lid, ok2 = last.X, true
+					}
+					one, ok3 := (*ENum)(nil), false
+					if ok {
+						one, ok3 = last.Y.(*ENum)
+					}
+					lname, ok4 := lid.(*EIdent)
+					if !(ok && ok2 && ok3 && ok4 && last.Op == "-" && lname.Name == n && one.Val == "1") {
+						bad = fmt.Errorf("rec %s: self calls must pass `%s - 1` as the last argument", sf.Name, n)
+					}
+				}
+			}
+			walk(v.Fn, inStep)
+			for _, a := range v.Args {
+				walk(a, inStep)
+			}
+		case *EUnary:
+			walk(v.X, inStep)
+		case *EBinary:
+			walk(v.X, inStep)
+			walk(v.Y, inStep)
+		case *ESel:
+			walk(v.X, inStep)
+		case *EIndex:
+			walk(v.X, inStep)
+			walk(v.I, inStep)
+		case *EIte:
+			walk(v.C, inStep)
+			walk(v.A, inStep)
+			walk(v.B, inStep)
+		case *ELet:
+			walk(v.Val, inStep)
+			walk(v.Body, inStep)
+		case *EOld:
+			bad = fmt.Errorf("rec %s: old() is not allowed in a rec body", sf.Name)
+		case *EQuant:
+			walk(v.Body, inStep)
+		}
+	}
+	walk(ite.C, false)
+	walk(ite.A, false)
+	walk(ite.B, true)
+	return bad
+}
+
+// applyRec: a recursive spec function is an uninterpreted function of (the heap components it reads, its arguments)
+// with its defining equation as a pattern-triggered axiom. Well-foundedness is checked syntactically (recWellFounded).
+func (e *SpecEnv) applyRec(sf *SpecFn, n *SpecEnv, args []SV) SV {
+	fc := e.fc
+	if err := recWellFounded(sf); err != nil {
+		e.fail("%v", err)
+	}
+	name := "rf_" + mangle(sf.Pkg+"_"+sf.Name)
+	if fc.recInfo == nil {
+		fc.recInfo = map[string][]string{}
+		fc.recBusy = map[string]bool{}
+	}
+	var ret types.Type = mathInt
+	if sf.Ret != "" && sf.Ret != "mathint" {
+		ret = n.resolveType(sf.Ret)
+	}
+	comps, known := fc.recInfo[name]
+	if !known {
+		if fc.recBusy[name] {
+			// footprint discovery in progress: a self call contributes nothing new
+			return SV{t: fc.tc.zero(ret), typ: ret}
+		}
+		fc.recBusy[name] = true
+		// phase 1: which heap components does the body read?
+		saved := fc.touchLog
+		fc.touchLog = map[string]bool{}
+		probe := *n
+		probe.cur = &State{heap: map[string]string{}}
+		probe.old = probe.cur
+		probe.vars = map[string]SV{}
+		var decls, argNames []string
+		for i, b := range sf.Params {
+			t := n.resolveType(b.Type)
+			an := fmt.Sprintf("ra%d", i)
+			probe.vars[b.Name] = SV{t: an, typ: t}
+			decls = append(decls, "("+an+" "+fc.tc.sortOf(t)+")")
+			argNames = append(argNames, an)
+		}
+		probe.eval(sf.Body)
+		for k := range fc.touchLog {
+			if k != "W" {
+				comps = append(comps, k)
+			}
+		}
+		sortStrings(comps)
+		fc.touchLog = saved
+		fc.recInfo[name] = comps
+		delete(fc.recBusy, name)
+		// phase 2: the defining equation over symbolic heap components
+		st := &State{heap: map[string]string{}}
+		var hdecls, hnames, sorts []string
+		for _, k := range comps {
+			hn := "rh_" + mangle(k)
+			st.heap[k] = hn
+			hdecls = append(hdecls, "("+hn+" "+fc.comps[k]+")")
+			hnames = append(hnames, hn)
+			sorts = append(sorts, fc.comps[k])
+		}
+		for i, b := range sf.Params {
+			sorts = append(sorts, fc.tc.sortOf(n.resolveType(b.Type)))
+			_ = i
+		}
+		fc.eng.declareUF(fc, name, sorts, fc.tc.sortOf(ret))
+		probe.cur, probe.old = st, st
+		body := probe.eval(sf.Body)
+		call := app(name, append(append([]string{}, hnames...), argNames...)...)
+		if fc.ufAxioms == nil {
+			fc.ufAxioms = map[string]string{}
+		}
+		fc.ufAxioms[name] = fmt.Sprintf("(assert (forall (%s) (! (= %s %s) :pattern (%s))))", strings.Join(append(hdecls, decls...), " "), call, body.t, call)
+		fc.assumes["rec spec "+sf.Pkg+"."+sf.Name+": defining equation (syntactically well-founded on its last parameter)"] = true
+	}
+	var ts []string
+	for _, k := range comps {
+		ts = append(ts, fc.comp(e.cur, k, fc.comps[k]))
+	}
+	for _, a := range args {
+		ts = append(ts, a.t)
+	}
+	return SV{t: app(name, ts...), typ: ret}
+}
+
+func sortStrings(xs []string) {
+	for i := 1; i < len(xs); i++ {
+		for j := i; j > 0 && xs[j] < xs[j-1]; j-- {
+			xs[j], xs[j-1] = xs[j-1], xs[j]
+		}
+	}
 }
